@@ -101,6 +101,8 @@ def run_case(case, drv):
     g = VU.graph_of(o)
     N = len(g["nodes"])
     has = {(a[0], a[1]): a for a in g["arcs"]}
+    # "staying at the depot counts as a move": the reference has the depot's stay move (time 0, cost 0) whether or not the object holds it
+    has.setdefault((0, 0), (0, 0, g["nodes"][0][0], g["nodes"][0][0], Fraction(0), Fraction(0)))
     vc = [F(c) for c in o.vehicle_cost]
     res.features += [f"strict:{o.strict}", f"V:{V}", f"L:{L}", f"n:{n}", f"surcharge:{any(c != 0 for c in vc)}"]
     limit = 13
